@@ -127,7 +127,7 @@ NASTY: dict = {
     "str_zero": ["00", "000000"],
     "str_negint": ["-1", "-007", "-999"],
     "str_ts": ["9" * 15, "1000000000001"],
-    "str_bigdigits": ["2" + "0" * 18, "8" + "9" * 18],
+    "str_bigdigits": ["2" + "0" * 18, "8" + "9" * 18, "1" + "0" * 25, "9" * 400, "9" * 4300],  # 19 … 4300 digits
     "str_hugeint": ["1" + "0" * 4300, "9" * 4301],  # 4301 characters: one more than MAX_STR_INT
     "str_float": ["0.5", "1.0", "999.95", "3.", ".5", "1e3", "1E-3"],
     "str_exp": ["1e309", "9e99999", "1E999"],
